@@ -187,7 +187,7 @@ def run_frame(case, ctx):
     spec = registry.get(case["cls"])
     K = "C02/%s/" % spec.name
     for vi in range(len(spec.variants)):
-        for weighted in (False, True, "some-zero", "mostly-zero", "zero-on-one-side", "zero-weight-blob"):
+        for weighted in (False, True, "some-zero", "mostly-zero", "zero-on-one-side", "zero-weight-blob", "square-table"):
             cfg = {"class": spec.name, "variant": vi, "weighted": weighted}
             est = spec.make(vi)
             D = spec.data(numpy.random.RandomState(3))
@@ -210,6 +210,15 @@ def run_frame(case, ctx):
                     D["X"] = numpy.vstack([r_.randn(10, d_) * 0.3 + c_ for c_ in cen_])
                     D["w"] = numpy.full(30, 2.0)
                     D["w"][10:20] = 0.0
+                elif weighted == "square-table":
+                    # as many rows as columns: a weight vector has the length of a coefficient vector (an inner estimator
+                    # that takes its arguments by position could adopt one for the other)
+                    if "y" not in D or D["X"].ndim != 2 or D["X"].shape[0] < D["X"].shape[1]:
+                        continue
+                    d_ = D["X"].shape[1]
+                    D["X"] = numpy.ascontiguousarray(D["X"][:d_])
+                    D["y"] = numpy.asarray(D["y"])[:d_].copy()
+                    D["w"] = numpy.ascontiguousarray(numpy.random.RandomState(4).rand(d_) + 0.5)
                 elif weighted == "some-zero":
                     D["w"][numpy.random.RandomState(5).rand(nrow_) < 0.3] = 0.0
                 elif weighted == "mostly-zero":
